@@ -35,7 +35,7 @@ static bool backtracking_pattern(const std::string &p) {
 
 // ------------------------------------------------------------ ranges
 struct RefRange {
-  enum Kind { OK, ZERO_STRIDE, WRONG_DIRECTION, MUST_REJECT, UNCLEAR } kind = OK;
+  enum Kind { OK, ZERO_STRIDE, WRONG_DIRECTION, MUST_REJECT, UNCLEAR, HUGE } kind = OK;
   std::vector<long> seq;
   std::string why;
 };
@@ -44,9 +44,10 @@ static bool parse_int(const std::string &t, long &v) {
   if (t.empty()) return false;
   size_t i = 0;
   if (t[0] == '+' || t[0] == '-') i = 1;
-  if (i >= t.size() || t.size() - i > 9) return false;
+  if (i >= t.size()) return false;
   for (size_t k = i; k < t.size(); ++k)
     if (t[k] < '0' || t[k] > '9') return false;
+  if (t.size() - i > 18) return false;  // does not fit a 64-bit integer: malformed for this parser
   v = std::stol(t);
   return true;
 }
@@ -77,7 +78,7 @@ static RefRange ref_range(const std::string &expr_in) {
   }
   auto worse = [&](RefRange::Kind k, const std::string &why) {
     // precedence: MUST_REJECT > UNCLEAR > ZERO_STRIDE > WRONG_DIRECTION > OK
-    static const int rank[] = {0, 2, 1, 4, 3};
+    static const int rank[] = {0, 2, 1, 4, 3, 5};
     if (rank[k] > rank[R.kind]) {
       R.kind = k;
       R.why = why;
@@ -115,6 +116,12 @@ static RefRange ref_range(const std::string &expr_in) {
         worse(RefRange::UNCLEAR, "empty field in '" + b + "'");
       continue;
     }
+    for (long x : v)
+      if (x > 999999999L || x < -999999999L) {
+        // a valid integer, but ranges over it cannot be enumerated within a step budget: only parsing is exercised
+        worse(RefRange::HUGE, "huge number");
+      }
+    if (R.kind == RefRange::HUGE) continue;
     long bg = v[0], en = v[0], sd = 1;
     if (f.size() == 2) en = v[1];
     if (f.size() == 3) {
